@@ -219,3 +219,30 @@ _Rb_tree_node_base * _Rb_tree_rebalance_for_erase(_Rb_tree_node_base * const z, 
 }
 
 } // namespace std
+
+// ---- std::_Hash_bytes (hash of std::string keys in unordered_map): libstdc++'s 64-bit Murmur-style hash (hash_bytes.cc), integer-only
+namespace std {
+static inline size_t local_shift_mix(size_t v) { return v ^ (v >> 47); }
+size_t _Hash_bytes(const void * ptr, size_t len, size_t seed)
+{
+	static const size_t mul = (((size_t)0xc6a4a793UL) << 32UL) + (size_t)0x5bd1e995UL;
+	const unsigned char * const buf = static_cast<const unsigned char *>(ptr);
+	const size_t len_aligned = len & ~(size_t)0x7;
+	const unsigned char * const end = buf + len_aligned;
+	size_t hash = seed ^ (len * mul);
+	for(const unsigned char * p = buf; p != end; p += 8) {
+		size_t w = 0;
+		for(int i = 7; i >= 0; --i) w = (w << 8) + p[i];       // unaligned little-endian load, byte by byte
+		const size_t data = local_shift_mix(w * mul) * mul;
+		hash ^= data; hash *= mul;
+	}
+	if((len & 0x7) != 0) {
+		size_t data = 0;
+		for(int i = (int)(len & 0x7) - 1; i >= 0; --i) data = (data << 8) + end[i];
+		hash ^= data; hash *= mul;
+	}
+	hash = local_shift_mix(hash) * mul;
+	hash = local_shift_mix(hash);
+	return hash;
+}
+}
